@@ -73,7 +73,7 @@ def describe(tier):
         'are forks of the exploration)',
         'symbolic': 'stream length in [512, 40960] (plus the concrete small '
         'lengths 0,3,4,8,63,64,100,511), read size 4096 (thorough: symbolic '
-        '1..65536 with at most 4 non-empty reads), allowed_formats = all, or a symbolic subset over '
+        '512..65536 with at most 4 non-empty reads), allowed_formats = all, or a symbolic subset over '
         '{raw, the offset-0 format, gpt, iso}',
         'no-revision': 'format sampled after every read',
         'thorough': 'additionally arbitrary (symbolic) bytes at one group '
